@@ -191,11 +191,17 @@ def proof_leg(pid, extra_targets=(), thorough=False):
 
 # ------------------------------------------------------------------------------ build leg
 
-def write_overlay():
+def write_overlay(target=None):
+    """The overlay of one binary.  A shim that carries a line `//verif:only a,b` is compiled into the binaries a and b only:
+    a shim that depends on unexported signatures then cannot break the build of the binaries that do not need it."""
     os.makedirs(BUILD, exist_ok=True)
     repl = {}
     for f in sorted(glob.glob(os.path.join(HARNESS, "shims", "*.go"))):
-        m = re.search(r"^//verif:target\s+(\S+)", open(f).read(), flags=re.M)
+        txt = open(f).read()
+        m = re.search(r"^//verif:target\s+(\S+)", txt, flags=re.M)
+        only = re.search(r"^//verif:only\s+(\S+)", txt, flags=re.M)
+        if only and target is not None and target not in only.group(1).split(","):
+            continue
         if m:
             repl[os.path.join(REPO, m.group(1))] = f
     for d in sorted(os.listdir(HARNESS)):
@@ -208,7 +214,7 @@ def write_overlay():
             # the common driver framework is compiled into every binary
             for f in sorted(glob.glob(os.path.join(HARNESS, "common", "*.go"))):
                 repl[os.path.join(REPO, "internal", "verifharness", d, "zz_common_" + os.path.basename(f))] = f
-    path = os.path.join(BUILD, "overlay.json")
+    path = os.path.join(BUILD, "overlay.%s.json" % target if target else "overlay.json")
     tmp = path + ".%d" % os.getpid()
     json.dump({"Replace": repl}, open(tmp, "w"), indent=1)
     os.replace(tmp, path)
@@ -218,7 +224,7 @@ def write_overlay():
 def go_build(target="zunit", race=False):
     """Builds the harness binary from /repo's CURRENT working tree. Returns (ok, path, log)."""
     with Lock(".go.%s.lock" % target):
-        ov = write_overlay()
+        ov = write_overlay(target)
         outp = os.path.join(BUILD, target + ("-race" if race else ""))
         # never let the build touch /repo's go.mod / go.sum (a harness import may promote an indirect
         # requirement): build against private copies taken from the current tree
